@@ -2,6 +2,7 @@
 
 pub mod c01;
 pub mod c02;
+pub mod c03;
 pub mod c05;
 pub mod c06;
 pub mod c07;
@@ -13,6 +14,7 @@ pub mod c12;
 pub mod c13;
 pub mod c14;
 pub mod c15;
+pub mod c18;
 
 use vcommon::{Check, Chooser, EvidenceExtras, RunOutcome, Tier};
 
@@ -64,6 +66,7 @@ pub fn all() -> Vec<Box<dyn Check>> {
     v.push(Box::new(c01::C01 { family: "c01_net_noisy_prelude", skew: true, noisy: true, quick_runs: 1000, thorough_runs: 40000 }));
     v.push(Box::new(c02::C02 { family: "c02_closed_loop_fault_free", faults: false, quick_runs: 3000, thorough_runs: 100_000 }));
     v.push(Box::new(c02::C02 { family: "c02_closed_loop_faults_then_quiet", faults: true, quick_runs: 1000, thorough_runs: 50_000 }));
+    v.push(Box::new(c03::C03));
     v.push(Box::new(c05::C05));
     v.push(Box::new(c06::C06));
     v.push(Box::new(c07::C07));
@@ -75,6 +78,7 @@ pub fn all() -> Vec<Box<dyn Check>> {
     v.push(Box::new(c13::C13Direct));
     v.push(Box::new(c14::C14));
     v.push(Box::new(c15::C15));
+    v.push(Box::new(c18::C18));
     v.push(Box::new(Reuse { property: "C14", family: "c14_monitor_on_random_history", inner: Box::new(c08::C08Driver), quick_runs: 3000, thorough_runs: 60_000 }));
     v.push(Box::new(Reuse { property: "C13", family: "c13_monitor_on_closed_loop_faults", inner: Box::new(c02_faults()), quick_runs: 800, thorough_runs: 30_000 }));
     v.push(Box::new(Reuse { property: "C13", family: "c13_monitor_on_random_history", inner: Box::new(c08::C08Driver), quick_runs: 3000, thorough_runs: 60_000 }));
@@ -133,6 +137,9 @@ pub fn extras(property: &str) -> EvidenceExtras {
             e.rule = "each run = one closed loop (statime master or scripted one-step master <-> statime slave with the real Kalman servo acting on a simulated oscillator) at one point of the parameter box (offset +-10 s, drift +-150 ppm, delay 1-400 us, jitter 0-20 us, sync/delay interval 2^-3..2^1 s, timestamp quantum 0/1/8 ns); non-trivial = the port became slave and the bound was evaluated after the settle time; distinct = distinct (parameter class, state-transition sequence) fingerprint".into();
             e.assumptions.push("bound B = max(1 us, 1.5 J + 2 q); settle time 60 s + 150 I + 250 I^2/s calibrated on the unchanged tree with a margin >= 2x and frozen".into());
         }
+        "C03" => {
+            e.rule = "each run = one instance with 1-3 ports in a random configuration (E2E/P2P, path trace, slave-only, master-only, acceptable-master lists, Kalman or basic filter, real TlvForwarder) driven through 20-80 (thorough: -400) host calls: the random-history driver (valid traffic that walks the ports through every state, timers in any order, BMCA, run-time setting changes, late/lost TX timestamps) interleaved with hostile operations (frames with mutated header fields, boundary timestamps and correction fields, TLVs sized at every buffer margin, path traces of 0..246 entries, truncated / padded / length-rewritten / raw frames up to 2048 bytes, arbitrary receive and transmit timestamps in [0, 2^63 ns), failing clocks); every operation runs under catch_unwind; the whole batch is run twice, in the release profile and in the `checked` profile (debug-assertions + overflow-checks); non-trivial = at least one port state transition or a panic; distinct = operation-kind sequence".into();
+        }
         "C05" => {
             e.rule = "each run = one instance (1-3 ports, own attributes from small domains, slave-only / master-only flags, prior port states Listening / Master by timeout / Slave-Passive by an earlier BMCA round / Faulty by a two-responder Pdelay exchange) and up to three scripted masters (grandmaster attributes and stepsRemoved 0,1,2,3,254 from small domains, sender identity below / above / between / same clock other port, on tape-chosen ports) each delivering two Announces in a tape-chosen interleaving, then PtpInstance::bmca; the resulting port states and data sets are compared with the reference implementation of Figures 33-35 and with the outcome of a second interleaving; non-trivial = every run; distinct = (decision vector, prior states, flags) fingerprint".into();
         }
@@ -159,6 +166,11 @@ pub fn extras(property: &str) -> EvidenceExtras {
         }
         "C15" => {
             e.rule = "each run = a boundary clock (one slave port, 1-3 master ports sharing the daemon's real TlvForwarder) whose scripted parent, another acceptable master and an unacceptable sender attach generated TLV suffixes to their Announces (propagating / non-propagating / reserved types, even lengths 0..1100 incl. sizes equal to, just below and just above the room left, path traces of 0..200 entries incl. looping ones, bursts beyond the forwarder capacity); each emitted Announce is compared with a per-port model queue; non-trivial = Announces checked and at least one TLV forwarded or looping Announce sent; distinct = TLV script fingerprint".into();
+        }
+        "C18" => {
+            e.rule = "each run = one OverlayClock (plain or behind SharedClock) over a simulated underlying clock started anywhere in the PTP range, driven through a history of 1-50 operations from {set_frequency(ppm in [-500,500], multiples of 2^-10 so the fixed-point conversion is exact), step_clock(+-10 s incl. sub-ns), advance the underlying clock by 0..10^4 s}; after every operation the reading, the returned time and time_from_underlying are compared with an affine reference model in exact 2^-32 ns integers; non-trivial = at least two operations; distinct = operation-kind sequence".into();
+            e.components_real = vec!["statime::OverlayClock".into(), "statime::SharedClock".into()];
+            e.components_stub = vec!["underlying clock -> SimClock (the daemon uses LinuxClock)".into()];
         }
         "C12" => {
             e.rule = "each run = a generated history with a faithful host (timers armed and fired exactly as requested; lost/late TX timestamps, masters appearing/disappearing, second peer-delay responders) followed by (a) total silence or (b) a steadily announcing better master; non-trivial = phase 2 evaluated; distinct = (variant, start states, transition sequence) fingerprint".into();
